@@ -1729,7 +1729,8 @@ def replay(ctx, obj):
         for k, ds in enumerate(c["classes"]):
             es = eff_src(ds, case_src(c, k))
             if es:
-                print(class_source(ds, "Cls%d" % k, c["split"][k], es)[0])
+                text, env = class_source(ds, "Cls%d" % k, c["split"][k], es)
+                print(text + "".join("# %s = %r\n" % kv for kv in sorted(env.items())))
             else:
                 print("Cls%d = type(...): %s" % (k, "; ".join(describe_decl(d, 0) for d in ds)))
         o = exec_case(mt, c)
@@ -1745,7 +1746,8 @@ def replay(ctx, obj):
     if kind == "grid":
         decl, src = grid_decl(obj["default"], obj["hint"], obj.get("form", 0), obj.get("flavor", 0), obj.get("ann", 0))
         if eff_src([decl], src):
-            print(class_source([decl], "Grid0", 0, eff_src([decl], src))[0])
+            text, env = class_source([decl], "Grid0", 0, eff_src([decl], src))
+            print(text + "".join("# %s = %r\n" % kv for kv in sorted(env.items())))
         g = grid_observe(mt, 0, obj["default"], obj["hint"], obj.get("form", 0), obj.get("flavor", 0), obj.get("ann", 0))
         r = oracle_grid(obj["default"], obj["hint"], g)
         print("tunable(%s) hint %s -> %s" % (json.dumps(obj["default"]), json.dumps(obj["hint"]), g))
